@@ -336,6 +336,141 @@ class C12:
                     witness={"clip": [cs, ce], "minimum_overlap": mv, "geometry": [startv, endv], "expected": want})
 
 
+# ---------------------------------------------------------------------------------------------- the same obligations on finite models
+def _machine(ctx):
+    from types import SimpleNamespace as NS
+    from sa.meval import Machine
+    return Machine(ctx.summ, ctx.index, stubs={
+        f"{OPS}:compute_bounds": lambda geometry: geometry.bounds4,
+        "soundevent.geometry.conversion:geometry_to_shapely": lambda geom: NS(bounds=geom.bounds4),
+    })
+
+
+def _outcome(fn):
+    from sa.meval import ModelRaise
+    try:
+        return ("value", fn())
+    except ModelRaise as e:
+        return ("raises", e.name)
+
+
+def intervals_models(ctx):
+    """intervals_overlap on every pair of 21 intervals with end points in {0, .5, 1, 1.5, 2, 3} (degenerate ones included), without a
+    threshold, with absolute thresholds {0, .25, .5, 1, 2.5} and relative ones {0, .25, .5, 1}: true iff min(stops) - max(starts) >=
+    0 / a / r * (the shorter length); both thresholds together and relative thresholds outside [0, 1] raise ValueError.
+    -> (n, None) all agree, (n, message, witness) first disagreement; raises Unknown outside the interpreted fragment."""
+    M = _machine(ctx)
+    pts = (0.0, 0.5, 1.0, 1.5, 2.0, 3.0)
+    ivs = [(a, b) for a in pts for b in pts if a <= b]
+    n = 0
+
+    def call(i1, i2, **kw):
+        return _outcome(lambda: M.call(OPS, "intervals_overlap", i1, i2, **kw))
+
+    for kw in ({"min_absolute_overlap": 0.5, "min_relative_overlap": 0.5}, {"min_absolute_overlap": 0.0, "min_relative_overlap": 0.0},
+               {"min_relative_overlap": -0.5}, {"min_relative_overlap": 1.5}, {"min_relative_overlap": -1e-9}, {"min_relative_overlap": 1.0000001}):
+        got = call((0.0, 2.0), (1.0, 3.0), **kw)
+        n += 1
+        if got != ("raises", "ValueError"):
+            return n, f"intervals_overlap((0, 2), (1, 3), {kw}) gives {got[1]!r} instead of raising ValueError", {"thresholds": kw}
+    for i1 in ivs:
+        for i2 in ivs:
+            inter = min(i1[1], i2[1]) - max(i1[0], i2[0])
+            shorter = min(i1[1] - i1[0], i2[1] - i2[0])
+            cases = [({}, inter >= 0)]
+            cases += [({"min_absolute_overlap": a}, inter >= a) for a in (0.0, 0.25, 0.5, 1.0, 2.5)]
+            cases += [({"min_relative_overlap": r}, inter >= r * shorter) for r in (0.0, 0.25, 0.5, 1.0)]
+            for kw, want in cases:
+                got = call(i1, i2, **kw)
+                n += 1
+                if got[0] != "value" or bool(got[1]) != want:
+                    return n, (f"intervals_overlap({i1}, {i2}{''.join(f', {k}={v}' for k, v in kw.items())}) "
+                               f"{'gives ' + repr(got[1]) if got[0] == 'value' else 'raises ' + got[1]}; the intersection has length {inter} "
+                               f"(shorter interval {shorter}), so the statement says {want}"), {"interval1": i1, "interval2": i2, **kw}
+    return n, None, None
+
+
+def extent_models(ctx, fname, lo, hi):
+    """have_temporal_overlap / have_frequency_overlap on pairs of model geometries whose time and frequency extents differ in every
+    respect: equal to the interval predicate of the statement on the (lo, hi) components of the bounds, thresholds forwarded"""
+    from types import SimpleNamespace as NS
+    M = _machine(ctx)
+    geoms = [NS(bounds4=b, type="BoundingBox") for b in ((0.0, 10.0, 2.0, 30.0), (1.0, 40.0, 3.0, 45.0), (2.0, 20.0, 2.5, 40.0), (5.0, 12.0, 6.0, 12.0), (0.5, 30.0, 0.5, 100.0))]
+    n = 0
+    for g1 in geoms:
+        for g2 in geoms:
+            i1, i2 = (g1.bounds4[lo], g1.bounds4[hi]), (g2.bounds4[lo], g2.bounds4[hi])
+            inter = min(i1[1], i2[1]) - max(i1[0], i2[0])
+            shorter = min(i1[1] - i1[0], i2[1] - i2[0])
+            cases = [({}, inter >= 0)] + [({"min_absolute_overlap": a}, inter >= a) for a in (0.0, 0.5, 1.0, 15.0)] \
+                + [({"min_relative_overlap": r}, inter >= r * shorter) for r in (0.0, 0.5, 1.0)]
+            for kw, want in cases:
+                got = _outcome(lambda: M.call(OPS, fname, g1, g2, **kw))
+                n += 1
+                if got[0] != "value" or bool(got[1]) != want:
+                    return n, (f"{fname} on bounds {g1.bounds4} and {g2.bounds4}{''.join(f', {k}={v}' for k, v in kw.items())} "
+                               f"{'gives ' + repr(got[1]) if got[0] == 'value' else 'raises ' + got[1]}; on the extents {i1} and {i2} the statement says {want}"), \
+                        {"bounds1": g1.bounds4, "bounds2": g2.bounds4, **kw}
+    for kw in ({"min_absolute_overlap": 0.5, "min_relative_overlap": 0.5}, {"min_relative_overlap": 1.5}):
+        got = _outcome(lambda: M.call(OPS, fname, geoms[0], geoms[1], **kw))
+        n += 1
+        if got != ("raises", "ValueError"):
+            return n, f"{fname}(..., {kw}) gives {got[1]!r} instead of raising ValueError", {"thresholds": kw}
+    return n, None, None
+
+
+def clip_models(ctx):
+    """is_in_clip for clips [10, 20] and [0, 8], minimum overlaps {0, 1, 2.5} and geometries placed around and on both thresholds
+    (zero-duration ones included): true iff end > clip.start + m and start < clip.end - m; a negative minimum raises ValueError"""
+    from types import SimpleNamespace as NS
+    M = _machine(ctx)
+    n = 0
+    for cs, ce in ((10.0, 20.0), (0.0, 8.0)):
+        clip = NS(start_time=cs, end_time=ce, duration=ce - cs)
+        for m in (0.0, 1.0, 2.5):
+            marks = sorted({cs - 1, cs, cs + m / 2, cs + m, cs + m + 0.5, (cs + ce) / 2, ce - m - 0.5, ce - m, ce - m / 2, ce, ce + 1})
+            for sv in marks:
+                for ev in marks:
+                    if sv > ev:
+                        continue
+                    g = NS(bounds4=(sv, 100.0, ev, 200.0), type="BoundingBox")
+                    got = _outcome(lambda: M.call(OPS, "is_in_clip", g, clip, m))
+                    want = ev > cs + m and sv < ce - m
+                    n += 1
+                    if got[0] != "value" or bool(got[1]) != want:
+                        return n, (f"clip [{cs}, {ce}], minimum_overlap {m}: a geometry spanning [{sv}, {ev}] "
+                                   f"{'gives ' + repr(got[1]) if got[0] == 'value' else 'raises ' + got[1]} but the statement says {want}"), \
+                            {"clip": [cs, ce], "minimum_overlap": m, "geometry": [sv, ev]}
+        for m in (-1.0, -1e-9):
+            got = _outcome(lambda: M.call(OPS, "is_in_clip", NS(bounds4=(cs + 1, 0.0, cs + 2, 1.0), type="BoundingBox"), clip, m))
+            n += 1
+            if got != ("raises", "ValueError"):
+                return n, f"is_in_clip(..., minimum_overlap={m}) gives {got[1]!r} instead of raising ValueError", {"minimum_overlap": m}
+    return n, None, None
+
+
+def _settled(ctx, rules_run, models, rid, func, what, oks):
+    """run the spelling-based rules, then the models; see rules/common.Settle"""
+    from sa.peval import Unknown
+    from .common import Settle
+    st = Settle(ctx)
+    rules_run()
+    try:
+        res = models()
+    except Unknown:
+        return
+    except RecursionError:
+        return
+    file = ctx.index.module(OPS).relpath
+    if res[1] is None:
+        if not st.clean():
+            st.withdraw()
+            for k in range(oks):
+                ctx.ok(rid[min(k, len(rid) - 1)], f"{file} {func}", f"{what}: agrees with the statement on all {res[0]} models")
+    else:
+        ctx.bad(rid[0], file, func, "the function vs the statement on a model", res[1], 0, witness=res[2])
+
+
 def run(ctx: Ctx):
     ctx.rule("R12.1", "intervals_overlap symmetric", 1)
     ctx.rule("R12.2", "per-mode formula min(stops) - max(starts) >= threshold", 3)
@@ -344,10 +479,21 @@ def run(ctx: Ctx):
     ctx.rule("R12.5", "is_in_clip truth table and negative minimum", 2)
     ctx.rule("R12.6", "the predicates are exported by soundevent.geometry, each once", 5)
     c = C12(ctx)
-    c.check_intervals_overlap()
-    c.check_delegations()
+    # every obligation twice: by comparing spellings, and on finite models of the inputs (the models decide where the spelling cannot
+    # be read, and are reported whenever they disagree with the statement)
+    _settled(ctx, c.check_intervals_overlap, lambda: intervals_models(ctx), ["R12.1", "R12.2", "R12.2", "R12.2", "R12.3"], "intervals_overlap",
+             "symmetric; true iff the intersection is at least the threshold; threshold validation", 5)
+
+    def both_extents():
+        for fname, (lo, hi) in (("have_temporal_overlap", (0, 2)), ("have_frequency_overlap", (1, 3))):
+            r = extent_models(ctx, fname, lo, hi)
+            if r[1] is not None:
+                return r
+        return r
+    _settled(ctx, c.check_delegations, both_extents, ["R12.4"], "have_temporal_overlap / have_frequency_overlap",
+             "equal to the interval predicate on the time / frequency extents, thresholds forwarded", 4)
     c.check_exports()
-    c.check_is_in_clip()
+    _settled(ctx, c.check_is_in_clip, lambda: clip_models(ctx), ["R12.5"], "is_in_clip", "true iff the geometry reaches more than the minimum into the clip; negative minimum rejected", 2)
     # the extents compared are compute_bounds of the geometries: the bounds of the converted shape of the coordinates as given
     from . import c03, c05
     c05.run_conversion_subset(ctx)
